@@ -5,6 +5,31 @@ use ark_std::rand::RngCore;
 use monitor::*;
 use oracle::{One, UInt, Zero};
 
+static SLICE: std::sync::atomic::AtomicBool = std::sync::atomic::AtomicBool::new(false);
+/// `--miri-slice 1`: a tiny workload (a few hundred cases) meant to run under Miri / valgrind
+pub fn set_slice(on: bool) {
+    SLICE.store(on, std::sync::atomic::Ordering::SeqCst);
+}
+pub fn slice() -> bool {
+    SLICE.load(std::sync::atomic::Ordering::Relaxed)
+}
+/// budget by tier; the slice mode divides the quick budget by 40
+pub fn bud(args: &Args, quick: usize, thorough: usize) -> usize {
+    if slice() {
+        (quick / 40).max(2)
+    } else {
+        args.pick(quick, thorough)
+    }
+}
+/// step for enumerations that are exhaustive outside the slice mode
+pub fn enum_step(total: u64) -> u64 {
+    if slice() {
+        (total / 160).max(1)
+    } else {
+        1
+    }
+}
+
 pub fn rand_below(rng: &mut Rng, p: &UInt) -> UInt {
     let limbs = (p.bits() as usize).div_ceil(64) + 1;
     oracle::from_limbs(&(0..limbs).map(|_| rng.next_u64()).collect::<Vec<_>>()) % p
